@@ -82,6 +82,71 @@ Theorem C13_append_e : forall buf x fmt pr,
 Proof. exact append_e. Qed.
 Print Assumptions C13_append_e.
 
+(* The 'f' layout for any precision: integer part f_int (the digits before the
+   point, zero-filled up to the exponent, or "0"), then - if pr > 0 - a point
+   and exactly pr digits: positions exp, exp+1, ... of the digit string, zero
+   outside it (frac_window). *)
+Theorem C13_f_layout : forall buf x D pr, SigDigits x D -> dform x = Ffinite -> 0 <= pr ->
+  fmtF buf x pr = Some (buf ++ f_int D (exp x) ++ (if 0 <? pr then 46 :: frac_window D (exp x) pr else [])).
+Proof. exact fmtF_layout. Qed.
+Print Assumptions C13_f_layout.
+
+Theorem C13_f_digit_count : forall D e pr, 0 <= pr -> zlen (frac_window D e pr) = pr.
+Proof. exact frac_window_len. Qed.
+Print Assumptions C13_f_digit_count.
+
+(* Append for 'f' with an explicit precision, end to end, in the three regimes
+   of the rounding position (below the last digit / inside the digits / at or
+   above the leading digit); the output is the sign of x and the 'f' layout of
+   x1, or "0" "." zeros when x1 is a zero. *)
+Theorem C13_append_f : forall buf x pr D,
+  WF x -> dform x = Ffinite -> SigDigits x D -> exp x < MaxExp ->
+  mdigits (mant x) < 4294967296 - 18 -> 0 <= pr <= 2147483648 -> exp x + pr <= MaxPrec ->
+  exists x1,
+    neg x1 = neg x /\
+    ((zlen D <= exp x + pr /\ x1 = x) \/
+     (1 <= exp x + pr < zlen D /\ dform x1 = Ffinite /\ result_spec (exp x + pr) (dmode x) (neg x) (mag x) x1) \/
+     (exp x + pr <= 0 /\
+      (up_spec (dmode x) (neg x) (mag x) pr -> dform x1 = Ffinite /\ (mag x1 == scaled 1 (- pr))%Q) /\
+      (~ up_spec (dmode x) (neg x) (mag x) pr -> dform x1 = Fzero))) /\
+    (dform x1 = Ffinite ->
+       exists D1, SigDigits x1 D1 /\
+         Append buf x 102 pr = Some ((buf ++ sign_bytes (neg x)) ++ f_int D1 (exp x1) ++
+                                     (if 0 <? pr then 46 :: frac_window D1 (exp x1) pr else []))) /\
+    (dform x1 = Fzero ->
+       Append buf x 102 pr = Some ((buf ++ sign_bytes (neg x)) ++ [48] ++ (if 0 <? pr then 46 :: zeros pr else []))).
+Proof. exact append_f. Qed.
+Print Assumptions C13_append_f.
+
+(* Append for 'g' / 'G' with an explicit precision, end to end: round once to
+   P = max(pr,1) digits; the 'e' layout is chosen exactly when the exponent of
+   the rounded value is below -4 or at least eprec (P, or the number of digits
+   left when trailing zeros were dropped and the value is below 10^digits);
+   otherwise the 'f' layout with just enough fraction digits. *)
+Theorem C13_append_g : forall buf x fmt pr,
+  WF x -> dform x = Ffinite -> (fmt = 103 \/ fmt = 71) -> exp x < MaxExp ->
+  mdigits (mant x) < 4294967296 - 18 -> 0 <= pr -> pr + 1 <= MaxPrec ->
+  let P := if pr =? 0 then 1 else pr in
+  exists x1 D1 d0 tl,
+    SigDigits x1 D1 /\ D1 = d0 :: tl /\ dform x1 = Ffinite /\ neg x1 = neg x /\
+    ((forall n, MinPrec x = Some n -> n <= P) /\ x1 = x \/
+     (exists n, MinPrec x = Some n /\ P < n) /\ result_spec P (dmode x) (neg x) (mag x) x1) /\
+    let nd := zlen D1 in
+    let eprec := if (nd <? P) && (exp x1 <=? nd) then nd else P in
+    let ech := fmt + 101 - 103 in
+    Append buf x fmt pr =
+      if (exp x1 - 1 <? -4) || (eprec <=? exp x1 - 1) then
+        let q := (if nd <? P then nd else P) - 1 in
+        Some ((buf ++ sign_bytes (neg x)) ++ [d0] ++
+              (if 0 <? q then 46 :: firstn (Z.to_nat q) tl ++ zeros (q - Z.min q (zlen tl)) else []) ++
+              [ech; e_sign (exp x1 - 1)] ++ exp_digits (exp x1 - 1))
+      else
+        let q := Z.max ((if exp x1 <? P then nd else P) - exp x1) 0 in
+        Some ((buf ++ sign_bytes (neg x)) ++ f_int D1 (exp x1) ++
+              (if 0 <? q then 46 :: frac_window D1 (exp x1) q else [])).
+Proof. exact append_g. Qed.
+Print Assumptions C13_append_g.
+
 (* Format: for every supported verb the output is at least `width` long. *)
 Theorem C13_format_width : forall x s verb out w,
   Format x s verb = Some out -> f_width s = Some w ->
@@ -92,19 +157,15 @@ Print Assumptions C13_format_width.
 
 (* NOT CLOSED (kept with their full statements):
 
-   C13_append : forall WF x, fmt in {e,E,f,g,G}, pr >= 0,
-     Append buf x fmt pr = Some (buf ++ sign ++ Layout.fmt_spec fmt pr (digits of the
-     Rounds image of x at the requested position)).
-   Closed parts: the whole statement for e/E (C13_append_e); for f/g/G the
-   rounding step in all three regimes (C13_round_step, C13_round_step_id,
-   C13_round_at_or_above).
-   Missing: the fmtF layout lemma for an arbitrary precision (integer part /
-   zero filling / fraction window), the %g selection (eprec, exponent
-   thresholds -4 and eprec) as a theorem, and their composition with the
-   rounding step as in C13_append_e; the case when the rounded copy overflows
-   to an infinity is excluded (known finding K6: the code is wrong there).  Covered by correspondence and by the reference formatter of
-   harness/props/textcommon.py (spec_text), itself validated against
-   strconv.FormatFloat / fmt.Sprintf on exactly representable inputs.
+   C13_append as ONE statement against a separate layout specification
+   (Layout.fmt_spec): closed per format instead - C13_append_e, C13_append_f,
+   C13_append_g state the output explicitly in terms of the significant digits
+   of the once-rounded value.  Excluded by hypothesis: exp x = MaxExp (the
+   rounded copy can overflow to an infinity and the code then prints "0...":
+   known finding K6).  Not derived: that the explicit strings coincide with
+   strconv.FormatFloat's for float64 inputs - validated by the run
+   (harness/props/textcommon.py spec_text vs strconv/fmt on exactly
+   representable inputs, and spec_text vs the implementation on all inputs).
 
    C13_pb : 'p' and 'b' print the normalized mantissa digits with the matching
    exponent - the strings are characterised by text_p / text_b in
